@@ -718,6 +718,7 @@ class Proc:
             if isinstance(e, (SystemExit, KeyboardInterrupt)):
                 raise
             return {'err': [type(e).__name__, str(e)[:300]], 'obj': self.token(t)}
+        ST.active = False      # canonicalisation reads directory values; that is the harness, not taskchain
         return {'ok': V.canon_observed(self.kind_of_slug[t.slugname], v), 'obj': self.token(t)}
 
     def op_insp(self, op):
